@@ -22,7 +22,8 @@
    behind loop.add_reader.                                                                  *)
 From Coq Require Import List Arith Bool ZArith Lia.
 From PV Require Import Base.Exn Model.PipeKernel Model.Subproc Spec.SubprocSpec
-  Proofs.SubprocReach Proofs.SubprocLocal Proofs.SubprocGlobal Proofs.SubprocCheck Gen.Subproc Model.SubprocEval.
+  Proofs.SubprocReach Proofs.SubprocLocal Proofs.SubprocGlobal Proofs.SubprocCheck Gen.Subproc Model.SubprocEval
+  Model.SubprocRet Proofs.SubprocRetProofs Model.SubprocExc Proofs.SubprocExcProofs.
 Import ListNotations.
 
 Definition P := Gen.Subproc.parent_prog.
@@ -448,4 +449,77 @@ Proof. vm_compute. repeat split; reflexivity. Qed.
 Example ex_inherits_foreign_read_end :
   let g := runN [b_ok; b_ok] (flat_map (fun _ => [GParent 0]) (seq 0 10) ++ flat_map (fun _ => [GParent 1]) (seq 0 5)) in
   map (fun v => g_inh v) (g_invs g) = [[]; [(0, {| e_rx := true; e_tx := false |})]].
+Proof. vm_compute. reflexivity. Qed.
+
+
+(* ---- what the callee RETURNS is an awaitable / a generator-like object / a coroutine object ----------
+   (Model/SubprocRet.v; input dimension `ret` of the stress run.)  `c : callee` is EVERY plain or coroutine
+   function and EVERY value it may return: plain data, a picklable instance of any class with __await__
+   (awaiting it yields any value or raises any exception), a generator-like object, a coroutine object
+   completing with any such value (nested to any depth), an unpicklable value.
+   The regenerated child decides by the FUNCTION whether anything is run on an event loop
+   (CSetupLoop + CRunCallee true = inspect.iscoroutinefunction(fun), up front): the parent is sent exactly
+   the value the function returns - the object itself, never what awaiting it would produce - or nothing
+   where that value cannot be pickled. *)
+Theorem C17_returned_object_handed_back_as_is :
+  forall c : callee, exists d, dispatch_of C = Some d /\ sent_ok c (run_inner d c) = true.
+Proof. exact gen_faithful. Qed.
+Print Assumptions C17_returned_object_handed_back_as_is.
+
+(* Deciding by the VALUE the call produced (inspect.isawaitable(res)) fails for EVERY plain function that
+   returns an object with __await__, whatever awaiting it does - and, apart from plain functions returning
+   coroutine objects, for nothing else (which is why no test with ordinary callees can tell). *)
+Theorem C17_dispatch_on_returned_value_refuted :
+  (forall cls a, sent_ok (SyncFn (VAwaitable cls a)) (run_inner DByValue (SyncFn (VAwaitable cls a))) = false) /\
+  (forall c, (match c with SyncFn (VAwaitable _ _) => false | SyncFn (VCoro _) => false | _ => true end) = true ->
+             sent_ok c (run_inner DByValue c) = true).
+Proof. split; [exact by_value_refuted | exact by_value_elsewhere]. Qed.
+Print Assumptions C17_dispatch_on_returned_value_refuted.
+
+(* Never running anything fails for every coroutine function with a picklable result. *)
+Theorem C17_coroutine_functions_must_be_run :
+  forall v, picklable v = true -> sent_ok (CoroFn v) (run_inner DNever (CoroFn v)) = false.
+Proof. exact never_refuted. Qed.
+Print Assumptions C17_coroutine_functions_must_be_run.
+
+Example ex_ret_codes :
+  map (fun k => (eval_ret C k false, eval_ret C k true)) [0; 1; 2; 3; 4; 5] =
+  [([1%Z], [1%Z]); ([1%Z], [1%Z]); ([1%Z], [1%Z]); ([1%Z], [1%Z]); ([1%Z], [1%Z]); ([0%Z], [0%Z])].
+Proof. vm_compute. reflexivity. Qed.
+
+
+(* ---- several failed invocations in one process: identity and lifetime of what reports them -----------
+   (Model/SubprocExc.v; input dimensions `hold` / `round` of the stress run.)  `ends` is ANY sequence of
+   invocations of one process, each ending with a value, the callee's exception or the report of a silent
+   child death.  The regenerated parent constructs that report in its handler (PASetChildProcessError is the
+   statement `result = SubprocessError(ex=ChildProcessError(...))`): distinct invocations are handed
+   distinct objects, and once the callers have dropped what they caught no frame - hence no Process object
+   with its two descriptors - of any of them is reachable. *)
+Theorem C17_each_failure_its_own_exception_nothing_retained :
+  exists o, origin_of P = Some o /\
+    (forall i j e e', i <> j -> handed o i e <> handed o j e') /\
+    (forall ends, open_fds o ends [] = 0).
+Proof. exists OHandler. split; [exact gen_origin | split; [exact handler_distinct | exact handler_nothing_left]]. Qed.
+Print Assumptions C17_each_failure_its_own_exception_nothing_retained.
+
+(* ONE instance constructed at import and re-raised: all silent deaths are reported by the same object, whose
+   traceback keeps the frame of every one of them - two descriptors per death stay open for the life of the
+   process, although every caller has dropped what it caught. *)
+Theorem C17_module_level_report_refuted :
+  (forall i j, handed OModule i IDeath = handed OModule j IDeath) /\
+  (forall ends, open_fds OModule ends [] = 2 * count_deaths ends).
+Proof. split; [exact module_same | exact module_leaks]. Qed.
+Print Assumptions C17_module_level_report_refuted.
+
+(* What the model says about the regenerated program WHILE the callers still hold what they caught: two
+   descriptors per failed invocation (callee's exception or silent death alike) stay open for as long -
+   the frame in the traceback holds the joined, never close()d Process object.  The stress run observes
+   exactly this number (fd_delta_while_held; compared as correspondence, not judged as the property). *)
+Theorem C17_descriptors_live_as_long_as_the_caught_exception :
+  forall ends, open_fds OHandler ends (failures ends 0) = 2 * count_failed ends.
+Proof. exact handler_while_held. Qed.
+Print Assumptions C17_descriptors_live_as_long_as_the_caught_exception.
+
+Example ex_exc_codes :
+  eval_exc P [IDeath; IReturn; IRaise; IDeath] = [0%Z; 6%Z; 1%Z].
 Proof. vm_compute. reflexivity. Qed.
